@@ -11,6 +11,7 @@
 #include <ompl/base/PlannerData.h>
 #include <chrono>
 #include <thread>
+#include <mutex>
 #include <time.h>
 using vt::json;
 
@@ -244,6 +245,292 @@ static json runOne(const std::vector<Entry> &reg, const json &cs, const RunSpec 
     return ev;
 }
 
+// ------------------------------------------------------------------ C03: life cycle
+// R^2 with allocation accounting: leaks and double frees become observable facts.
+class CountingR2 : public ob::RealVectorStateSpace
+{
+public:
+    CountingR2() : ob::RealVectorStateSpace(2)
+    {
+    }
+    ob::State *allocState() const override
+    {
+        ob::State *s = ob::RealVectorStateSpace::allocState();
+        std::lock_guard<std::mutex> g(m_);
+        live_.insert(s);
+        ++allocs_;
+        return s;
+    }
+    void freeState(ob::State *s) const override
+    {
+        {
+            std::lock_guard<std::mutex> g(m_);
+            auto it = live_.find(s);
+            if (it == live_.end())
+            {
+                ++badFrees_;  // double free or a pointer this space never handed out
+                return;       // do not hand it to the real allocator
+            }
+            live_.erase(it);
+        }
+        ob::RealVectorStateSpace::freeState(s);
+    }
+    long live() const
+    {
+        std::lock_guard<std::mutex> g(m_);
+        return (long)live_.size();
+    }
+    long badFrees() const
+    {
+        std::lock_guard<std::mutex> g(m_);
+        return badFrees_;
+    }
+    long allocs() const
+    {
+        std::lock_guard<std::mutex> g(m_);
+        return allocs_;
+    }
+
+private:
+    mutable std::mutex m_;
+    mutable std::set<ob::State *> live_;
+    mutable long badFrees_{0}, allocs_{0};
+};
+
+struct Query
+{
+    int start, goal;
+    double sx, sy, gx, gy;  // exact coordinates (recognizable: no sampler reproduces them)
+};
+
+static long budgetValue(const std::string &k)
+{
+    if (k == "inf")
+        return 4000;
+    return atol(k.c_str() + 1);  // "k13" -> 13
+}
+
+// one history on one planner; emits events into tr
+static void runLifecycle(const std::vector<Entry> &reg, const json &job, vt::Trace &tr)
+{
+    const Entry *e = findPlanner(reg, job["planner"]);
+    World w(job["W"], job["H"], job["obst"].get<std::vector<int>>());
+    unsigned seed = job["seed"];
+    ompl::RNG::setSeed(seed);
+    vt::Rng jit(seed * 2654435761u + 7);
+    auto space = std::make_shared<CountingR2>();
+    {
+        ob::RealVectorBounds b(2);
+        b.setLow(0, 0);
+        b.setHigh(0, w.W);
+        b.setLow(1, 0);
+        b.setHigh(1, w.H);
+        space->setBounds(b);
+    }
+    const double resFrac = 0.01;
+    space->setLongestValidSegmentFraction(resFrac);
+    auto si = std::make_shared<ob::SpaceInformation>(space);
+    auto validity = std::make_shared<WorldValidity>(si, w);
+    si->setStateValidityChecker(validity);
+    si->setup();
+    // a Problem shell for the oracle (shares space / si / world)
+    Problem pr(w, "R2", resFrac);
+    pr.space = space;
+    pr.si = si;
+    pr.validity = validity;
+    pr.resolutionLength = space->getLongestValidSegmentLength();
+
+    std::vector<int> freeCells;
+    for (int c = 0; c < w.W * w.H; ++c)
+        if (w.cellFree(c))
+            freeCells.push_back(c);
+    auto pickQuery = [&]() {
+        Query q;
+        // mostly valid queries; the model-determined classes (invalid start/goal, unreachable) occur too
+        auto cell = [&]() {
+            if (jit.below(12) == 0 || freeCells.empty())
+                return jit.below(w.W * w.H);
+            return freeCells[jit.below((int)freeCells.size())];
+        };
+        q.start = cell();
+        q.goal = cell();
+        q.sx = w.cx(q.start) + (jit.unit() - 0.5) * 0.6;
+        q.sy = w.cy(q.start) + (jit.unit() - 0.5) * 0.6;
+        q.gx = w.cx(q.goal) + (jit.unit() - 0.5) * 0.6;
+        q.gy = w.cy(q.goal) + (jit.unit() - 0.5) * 0.6;
+        return q;
+    };
+    std::map<std::string, ob::ProblemDefinitionPtr> pdefs;
+    std::map<std::string, Query> cur;
+    std::vector<Query> past;  // every query ever used (for staleness)
+    const double thr = job.value("thr", 0.0);
+    auto applyQuery = [&](const std::string &p, const Query &q) {
+        auto &pd = pdefs[p];
+        if (!pd)
+            pd = std::make_shared<ob::ProblemDefinition>(si);
+        pd->clearSolutionPaths();
+        pd->clearStartStates();
+        ob::ScopedState<> s(space), g(space);
+        s[0] = q.sx;
+        s[1] = q.sy;
+        g[0] = q.gx;
+        g[1] = q.gy;
+        pd->addStartState(s);
+        auto gs = std::make_shared<ob::GoalState>(si);
+        gs->setState(g);
+        if (thr > 0)
+            gs->setThreshold(thr);
+        pd->setGoal(gs);
+        cur[p] = q;
+        past.push_back(q);
+    };
+    // is (x,y) the exact start or goal of a query other than `now`?
+    auto staleCount = [&](const std::vector<std::pair<double, double>> &pts, const Query &now) {
+        int n = 0;
+        for (auto &pt : pts)
+            for (auto &q : past)
+            {
+                bool isNow = (q.sx == now.sx && q.sy == now.sy && q.gx == now.gx && q.gy == now.gy);
+                if (isNow)
+                    continue;
+                if ((pt.first == q.sx && pt.second == q.sy && !(pt.first == now.sx && pt.second == now.sy)) ||
+                    (pt.first == q.gx && pt.second == q.gy && !(pt.first == now.gx && pt.second == now.gy)))
+                {
+                    ++n;
+                    break;
+                }
+            }
+        return n;
+    };
+
+    Query qa = pickQuery(), qb = pickQuery();
+    applyQuery("A", qa);
+    applyQuery("B", qb);
+    json reset{{"e", "Reset"}, {"planner", e->name}, {"W", w.W}, {"H", w.H}, {"obst", job["obst"]},
+               {"seed", seed}, {"B", (e->flags & F_MT) ? 400 : 24}, {"job", job.value("id", 0)},
+               {"qA", json{{"start", qa.start}, {"goal", qa.goal}}}, {"qB", json{{"start", qb.start}, {"goal", qb.goal}}}};
+    tr.emit(reset);
+    ob::PlannerPtr planner = e->make(si);
+    std::string bound;
+    auto rankOf = [&](const ob::PlannerSolution &s) {
+        return json{{"approx", s.approximate_}, {"diff", fx(s.difference_)}, {"len", fx(s.length_)}};
+    };
+    for (auto &op : job["ops"])
+    {
+        std::string a = op["a"];
+        json ev{{"e", a}};
+        if (a == "SetPdef")
+        {
+            bound = op["p"];
+            planner->setProblemDefinition(pdefs[bound]);
+            ev["p"] = bound;
+        }
+        else if (a == "NewQuery")
+        {
+            std::string p = op["p"];
+            Query q = pickQuery();
+            applyQuery(p, q);
+            ev["p"] = p;
+            ev["start"] = q.start;
+            ev["goal"] = q.goal;
+        }
+        else if (a == "Clear")
+            planner->clear();
+        else if (a == "ClearQuery")
+            planner->clearQuery();
+        else if (a == "Setup")
+            planner->setup();
+        else if (a == "Solve")
+        {
+            auto pd = pdefs[bound];
+            const Query &q = cur[bound];
+            Budget b;
+            std::string kname = op["k"];
+            b.k = budgetValue(kname);
+            b.pdef = pd.get();
+            b.stopOnExact = kname == "inf";
+            std::size_t nBefore = pd->getSolutionCount();
+            ob::PlannerSolution topB(nullptr);
+            bool hadTop = pd->getSolutions().size() > 0;
+            if (hadTop)
+                topB = pd->getSolutions()[0];
+            std::set<const ob::Path *> before;
+            for (auto &s : pd->getSolutions())
+                before.insert(s.path_.get());
+            ob::PlannerStatus st = planner->solve(b.ptc());
+            pr.pdef = pd;
+            ev["k"] = kname;
+            ev["kval"] = b.stopOnExact ? -1 : b.k;
+            ev["evals"] = (long)b.evals.load();
+            ev["planner"] = e->name;
+            ev["W"] = w.W;
+            ev["H"] = w.H;
+            ev["obst"] = job["obst"];
+            ev["start"] = q.start;
+            ev["goal"] = q.goal;
+            ev["thr"] = thr > 0 ? "cell" : "tiny";
+            ev["thrMicro"] = fx(dynamic_cast<ob::GoalState *>(pd->getGoal().get())->getThreshold());
+            ev["res"] = fx(pr.resolutionLength);
+            ev["pairs"] = (e->flags & F_PAIRS) != 0;
+            ev["status"] = statusName(st);
+            ev["nBefore"] = (int)nBefore;
+            ev["nAfter"] = (int)pd->getSolutionCount();
+            ev["hasExact"] = pd->hasExactSolution();
+            json sols = json::array();
+            auto all = pd->getSolutions();
+            for (auto &s : all)
+            {
+                json f = solutionFacts(pr, *pd, s);
+                f["added"] = before.count(s.path_.get()) == 0;
+                std::vector<std::pair<double, double>> pts;
+                if (auto *pg = dynamic_cast<og::PathGeometric *>(s.path_.get()))
+                    for (std::size_t i = 0; i < pg->getStateCount(); ++i)
+                    {
+                        double x, y;
+                        xy(space, pg->getState(i), x, y);
+                        pts.emplace_back(x, y);
+                    }
+                f["stale"] = staleCount(pts, q);
+                sols.push_back(f);
+            }
+            ev["sols"] = sols;
+            ev["hadTop"] = hadTop;
+            ev["topBefore"] = hadTop ? rankOf(topB) : json{{"approx", false}, {"diff", 0}, {"len", 0}};
+            ev["topAfter"] = all.empty() ? json{{"approx", false}, {"diff", 0}, {"len", 0}} : rankOf(all[0]);
+        }
+        else if (a == "GetPlannerData")
+        {
+            ob::PlannerData data(si);
+            planner->getPlannerData(data);
+            std::vector<std::pair<double, double>> pts;
+            for (unsigned i = 0; i < data.numVertices(); ++i)
+            {
+                const ob::State *st = data.getVertex(i).getState();
+                if (!st)
+                    continue;
+                double x, y;
+                xy(space, st, x, y);
+                pts.emplace_back(x, y);
+            }
+            ev["nVerts"] = (int)data.numVertices();
+            ev["nEdges"] = (int)data.numEdges();
+            ev["stale"] = bound.empty() ? 0 : staleCount(pts, cur[bound]);
+        }
+        else if (a == "Destroy")
+        {
+            planner.reset();
+            pdefs.clear();
+            pr.pdef.reset();
+            ev["live"] = space->live();
+            ev["badFrees"] = space->badFrees();
+            ev["allocs"] = space->allocs();
+            tr.emit(ev);
+            break;
+        }
+        tr.emit(ev);
+    }
+}
+
 int main(int argc, char **argv)
 {
     installRunCrashHandlers();
@@ -295,6 +582,32 @@ int main(int argc, char **argv)
         std::cout << "RECORDED " << n << std::endl;
         return 0;
     }
-    fprintf(stderr, "usage: planners list | c01 <jobs> <out> <shard> <nshards>\n");
+    if (mode == "c03" && argc >= 6)
+    {
+        auto jobs = vt::readNdjson(argv[2]);
+        int shard = atoi(argv[4]), nshards = atoi(argv[5]);
+        long skip = argc > 6 ? atol(argv[6]) : 0;
+        vt::Trace tr(argv[3], skip > 0);
+        startWatchdog(40000, 900000);
+        long n = 0;
+        for (std::size_t i = 0; i < jobs.size(); ++i)
+        {
+            if ((int)(i % nshards) != shard)
+                continue;
+            if (n++ < skip)
+                continue;
+            const json &job = jobs[i];
+            json what{{"planner", job["planner"]}, {"job", job.value("id", 0)}, {"idx", n - 1}};
+            std::cout << "RUN " << (n - 1) << std::endl;
+            {
+                RunGuard g(what);
+                runLifecycle(reg, job, tr);
+            }
+            tr.flush();
+        }
+        std::cout << "RECORDED " << n << std::endl;
+        return 0;
+    }
+    fprintf(stderr, "usage: planners list | c01|c03 <jobs> <out> <shard> <nshards> [skip]\n");
     return 2;
 }
